@@ -622,6 +622,23 @@ def run_shortcut(case, mon):
         mon.add("unbuildable", "shortcut:%s:%s" % (probe, type(e).__name__))
         return
     mon.count("shortcut_statements")
+    # every shortcut of the table (select / update / insert) starts a statement of the class the table is bound to
+    verbs = {"select": (lambda t: t.select("pcol", True), lambda t: Q.from_(t).select("pcol", True)),
+             "update": (lambda t: t.update().set("pcol", True).where(t.flag == True), lambda t: Q.update(t).set("pcol", True).where(t.flag == True)),  # noqa: E712
+             "insert": (lambda t: t.insert(1, True, {"k": "v"}), lambda t: Q.into(t).insert(1, True, {"k": "v"}))}
+    for verb, (fa, fb) in verbs.items():
+        try:
+            qa, qb = fa(t_fact), fb(t_ref)
+            sa, sb = str(qa), qb.get_sql(contexts()[d])
+            pa, pb = repr(qa.get_parameterized_sql()), repr(qb.get_parameterized_sql(contexts()[d]))
+        except Exception as e:
+            mon.violation("shortcut:raises:%s:%s" % (type(e).__name__, fam), "%s shortcut via %s raised %r" % (verb, case["maker"], e))
+            return
+        mon.count("shortcut_verbs_compared")
+        if sa != sb or pa != pb or type(qa) is not type(qb):
+            mon.violation("shortcut-loses-dialect:%s:%s:%s" % (case["maker"], verb, fam), "%s: a statement started from %s(..).%s() renders %r (%s), started from the class %r (%s)" % (
+                d, case["maker"], verb, sa[:200], type(qa).__name__, sb[:200], type(qb).__name__))
+            return
     for mode in ("str", "param"):
         try:
             if mode == "param" and not isinstance(a, r["QueryBuilder"]):
